@@ -47,11 +47,12 @@ def _key(model: Model, state: Any) -> bytes:
 
 
 def explore(model: Model, acc: core.Acc, max_depth: int, *, max_states: int = 0, deadline: float | None = None,
-            chunk: int = 40, stop_on_fail_depth: bool = True) -> dict:
+            chunk: int = 40, stop_on_fail_depth: bool = True, benign_kinds: frozenset = frozenset()) -> dict:
     """Breadth-first search to max_depth.  Returns {'states', 'transitions', 'depth_completed', 'per_level'}.
 
     stop_on_fail_depth: states in which the invariant already failed are not expanded further
-    (their successors would only repeat the same failure with longer histories)."""
+    (their successors would only repeat the same failure with longer histories); failure kinds listed in
+    benign_kinds (recorded known findings) do not stop expansion."""
     init = model.build([])
     a0 = core.Acc()
     model.check(init, [], a0)
@@ -78,9 +79,9 @@ def explore(model: Model, acc: core.Acc, max_depth: int, *, max_states: int = 0,
                 h2 = hist + [op]
                 st2 = model.build(h2)
                 ntrans += 1
-                before = sum(out.fail_counts.values())
+                before = dict(out.fail_counts)
                 model.check(st2, h2, out)
-                failed = sum(out.fail_counts.values()) != before
+                failed = any(n != before.get(kd, 0) and kd not in benign_kinds for kd, n in out.fail_counts.items())
                 k = _key(model, st2)
                 model.dispose(st2)
                 del st2
